@@ -79,6 +79,14 @@ def constants():
         c.update(_mbx_cycle())
     except Exception:
         pass
+    try:    # C18: the step of the logical address windows, observed on the real get_fmmu_addr / get_next_addr
+        c.update(_fmmu_windows(ec))
+    except Exception:
+        pass
+    try:    # C28: Pascal-string size of the EL6002 channel, chunk size and init marker of Serial.update (probed)
+        c.update(_serial_literals())
+    except Exception:
+        pass
     return c
 
 
@@ -173,5 +181,61 @@ def _packet_literals(ec):
     return {"MAX_DATAGRAMS": n, "MIN_FRAME": len(frame), "PAD_BYTE": frame[-1]}
 
 
+def _fmmu_windows(ec):
+    """C18: `EtherCat.get_fmmu_addr` and `FMMULock.get_next_addr` are called three times on real
+    objects (the lock object without its file: only `base_addr` is set); the constant step between
+    the returned addresses is the window size, the first address of a fresh master its first window."""
+    from ebpfcat import lock as lk
+    e = ec.EtherCat("c18")
+    a = [e.get_fmmu_addr() for _ in range(3)]
+    L = lk.FMMULock.__new__(lk.FMMULock)
+    L.base_addr = 1 << 22
+    b = [L.get_next_addr() for _ in range(3)]
+    if a[1] - a[0] != a[2] - a[1] or b[1] - b[0] != b[2] - b[1] or a[1] < a[0] or b[1] < b[0] or a[0] < a[1] - a[0]:
+        raise ValueError("logical address windows do not advance by a constant step")
+    return {"fmmu_window_first": int(a[0]), "fmmu_window_inc": int(a[1] - a[0]), "fmmu_lock_inc": int(b[1] - b[0])}
+
+
 if __name__ == "__main__":
     print(regenerate())
+
+
+def _serial_literals():
+    """C28: the `23p` fields of `EL6002.Channel` give the Pascal-string size; the chunk size of
+    `os.read(self.out_read, 22)` and the init marker `b'A'` are literals inside `Serial.update`, so they
+    are observed on a real `Serial` object (real pipes, process image = a bytearray): the init
+    handshake is answered, the byte that arrives on the application pipe is the marker, and with 64
+    bytes waiting in the transmit pipe the length of `current_transmit` is the chunk size."""
+    import os
+    import struct
+    from ebpfcat import serial, terminals
+    from ebpfcat.ethercat import SyncManager
+    ch = terminals.EL6002.__dict__["channel1"].struct
+    so, si = ch.__dict__["out_string"], ch.__dict__["in_string"]
+    if so.size != si.size or not so.size.endswith("p") or so.position != si.position:
+        raise ValueError("unexpected EL6002 string fields")
+    size = struct.calcsize(so.size)
+    term = terminals.EL6002.__new__(terminals.EL6002)
+
+    class G:
+        current_data = bytearray(2 * (size + 1))
+        pdo_assign = {term: {SyncManager.IN: 0, SyncManager.OUT: size + 1}}
+    dev = serial.Serial(term.channel1)
+    try:
+        dev.sync_group = G()
+        G.current_data[0] = 1 << ch.__dict__["init_accept"].size
+        dev.update()
+        marker = os.read(dev.in_read, 16)
+        G.current_data[0] = 0
+        os.write(dev.out_write, bytes(64))
+        dev.update()
+        n = len(dev.current_transmit)
+    finally:
+        for fd in (dev.in_read, dev.in_write, dev.out_read, dev.out_write):
+            try:
+                os.close(fd)
+            except OSError:
+                pass
+    if len(marker) != 1 or not dev.connected:
+        raise ValueError("unexpected Serial init handshake")
+    return {"serial_pstr_size": int(size), "serial_read_max": int(n), "serial_init_byte": int(marker[0])}
